@@ -8,6 +8,7 @@ import (
 	"fmt"
 	"sort"
 	"sync"
+	"unsafe"
 
 	"verif/shim/vsched"
 )
@@ -190,8 +191,33 @@ func (p *Pool) Get() any {
 
 func (p *Pool) Put(x any) {
 	p.mu.Lock()
+	// the same buffer put back while it is still in the pool is a double release: two later Gets would hand
+	// the same memory to two users. The real pool does not notice; the shim does, on every schedule.
+	if id := identity(x); id != nil {
+		for _, it := range p.items {
+			if identity(it) == id {
+				p.mu.Unlock()
+				panic("sync.Pool: the same buffer was put back twice (double release of a pooled buffer)")
+			}
+		}
+	}
 	p.items = append(p.items, x)
 	p.mu.Unlock()
+}
+
+// identity returns the address that identifies a pooled value: the backing array of a byte slice, the target
+// of a pointer to one, nil for anything else.
+func identity(x any) unsafe.Pointer {
+	switch v := x.(type) {
+	case []byte:
+		if cap(v) == 0 {
+			return nil
+		}
+		return unsafe.Pointer(unsafe.SliceData(v[:1]))
+	case *[]byte:
+		return unsafe.Pointer(v)
+	}
+	return nil
 }
 
 // Cond mirrors sync.Cond on a vsync Locker.
